@@ -34,8 +34,9 @@ Definition qsqrt (q : Q) : Q :=
   Qred (Qmake (Z.sqrt (n * d * sh * sh)) (Z.to_pos (d * sh))).
 
 (* one taped call: the matrix the oracle was handed, and its answer(s).
-   MTruncated: a = tl.svd(.., full_matrices=True), b = tl.svd(.., full_matrices=False); otherwise a = b = svd_fun's answer *)
-Definition tape_entry := (qmat * triple Q * triple Q)%type.
+   MTruncated: a = tl.svd(.., full_matrices=True), b = Some (tl.svd(.., full_matrices=False));
+   otherwise a = the dispatched function's answer and b = None *)
+Definition tape_entry := (qmat * triple Q * option (triple Q))%type.
 Definition empty3 : triple Q := ([], [], []).
 Definition lookup_tol : Q := Qmake 1 1000000000.
 
@@ -44,26 +45,32 @@ Definition tape_fun (meth : method) (d1 d2 : nat) (n : option nat) (tape : list 
   | None => empty3
   | Some (Min, a, b) =>
       if mat_close lookup_tol lookup_tol Min M' then
-        match meth with
-        | MTruncated => truncated_svd (fun f : bool => if f then a else b) d1 d2 n
-        | _ => a
+        match meth, b with
+        | MTruncated, Some b => truncated_svd (fun f : bool => if f then a else b) d1 d2 n
+        | MTruncated, None => empty3
+        | _, _ => a
         end
       else empty3
   end.
 
+(* A group = one matrix, one method, one mask setting and ONE answer tape, shared by several requests
+   (n_eigenvecs, flip_sign, u_based_flip_sign, non_negative) each with the implementation's output.
+   Sharing is sound because the harness only groups requests whose recorded tapes are identical. *)
+Inductive sub :=
+  Sub (id : nat) (n : option nat) (flip ub : bool) (nn : option nntype) (expected : res (triple Q)).
 Inductive case :=
-  Case (id : nat) (d1 d2 : nat) (n : option nat) (meth : method) (flip ub : bool) (nn : option nntype)
-       (M : qmat) (mask : option qmat) (iters : nat) (tape : list tape_entry) (expected : res (triple Q)).
+  Group (d1 d2 : nat) (meth : method) (M : qmat) (mask : option qmat) (iters : nat) (tape : list tape_entry) (subs : list sub).
 
 Definition eps64 : Q := Qmake 1 4503599627370496.   (* 2^-52 *)
 
-Definition run (c : case) : res (triple Q) :=
-  let '(Case _ d1 d2 n meth flip ub nn M mask iters tape _) := c in
+Definition run_sub (d1 d2 : nat) (meth : method) (M : qmat) (mask : option qmat) (iters : nat) (tape : list tape_entry) (s : sub)
+  : res (triple Q) :=
+  let '(Sub _ n flip ub nn _) := s in
   svd_interface Qops (tape_fun meth d1 d2 n tape) meth d2 M n flip ub nn mask iters qsqrt eps64.
 
-Definition agree (c : case) : bool :=
-  let '(Case _ _ _ _ _ _ _ nn _ _ _ _ expected) := c in
-  match run c, expected with
+Definition agree_sub (d1 d2 : nat) (meth : method) (M : qmat) (mask : option qmat) (iters : nat) (tape : list tape_entry) (s : sub) : bool :=
+  let '(Sub _ _ _ _ nn expected) := s in
+  match run_sub d1 d2 meth M mask iters tape s, expected with
   | Ok a, Ok b => match nn with
                   | None => triple_eqb a b
                   | Some _ => triple_close (Qmake 1 1000000000) (Qmake 1 10000000) a b
@@ -71,8 +78,11 @@ Definition agree (c : case) : bool :=
   | Err, Err => true
   | _, _ => false
   end.
-Definition ident (c : case) : nat := let '(Case i _ _ _ _ _ _ _ _ _ _ _ _) := c in i.
-Definition failing := failing_ids agree ident.
+Definition sub_id (s : sub) : nat := let '(Sub i _ _ _ _ _) := s in i.
+Definition failing_group (g : case) : list nat :=
+  let '(Group d1 d2 meth M mask iters tape subs) := g in
+  failing_ids (agree_sub d1 d2 meth M mask iters tape) sub_id subs.
+Definition failing (gs : list case) : list nat := flat_map failing_group gs.
 
 (* ---- direct calls of svd_flip / truncated_svd / symeig_svd (second case type, same shard machinery) ---- *)
 Inductive dcase :=
